@@ -16,7 +16,8 @@ Fixpoint beqb (a b : list Z) : bool :=
 Inductive file_outcome :=
 | FDone (image : list byte) (diagnosed : bool)
 | FPanicked          (* destination was truncated by Exec, nothing written *)
-| FOverflowed.
+| FOverflowed
+| FUnmodelled.
 
 Definition assemble_file (E : encoder) (p : program) : file_outcome :=
   match assemble E p with
@@ -25,4 +26,5 @@ Definition assemble_file (E : encoder) (p : program) : file_outcome :=
       else FDone text d
   | Panicked => FPanicked
   | Overflowed => FOverflowed
+  | Unmodelled => FUnmodelled
   end.
